@@ -201,3 +201,91 @@ def TypedCycle(x: int, n: int = 3, back: ty.Any = None) -> int:
     if back is not None:
         outs[back[0]].out._node.inputs.x = outs[back[1]].out
     return outs[-1].out
+
+
+# ------------------------------------------------------------------ failure variants (C13)
+
+
+@python.define(outputs=["p", "q"])
+def PartialDict(x: int, full: bool = False) -> tuple[int, int]:
+    """returns a dict that lacks the declared output q unless `full`"""
+    body("PartialDict", (x, full))
+    if full:
+        return {"p": x, "q": x * 2}
+    return {"p": x}
+
+
+@python.define
+def Planned(x: int, tag: str = "") -> int:
+    """fails according to the run's fault plan (raise / raise_once)"""
+    body("Planned", (x, tag))
+    return x * 3
+
+
+@workflow.define
+def WfPlanned(x: int, tag: str = "") -> int:
+    a = workflow.add(Add(x=x, k=2), name="a")
+    b = workflow.add(Planned(x=a.out, tag=tag), name="b")
+    c = workflow.add(Add(x=b.out, k=5), name="c")
+    return c.out
+
+
+# ------------------------------------------------------------------ C06 variants
+
+
+def describe(v):
+    """canonical, type-revealing description of a value"""
+    try:
+        import numpy as np
+
+        if isinstance(v, np.ndarray):
+            return f"ndarray(shape={v.shape},dtype={v.dtype.str},data={v.tolist()!r})"
+    except ImportError:
+        pass
+    if isinstance(v, (list, tuple)):
+        return f"{type(v).__name__}[" + ",".join(describe(i) for i in v) + "]"
+    if isinstance(v, dict):
+        return "dict{" + ",".join(f"{describe(k)}:{describe(x)}" for k, x in sorted(v.items(), key=repr)) + "}"
+    return f"{type(v).__name__}({v!r})"
+
+
+@python.define
+def Describe(v: ty.Any) -> str:
+    body("Describe", (describe(v),))
+    return describe(v)
+
+
+def make_closure_task(k):
+    @python.define
+    def Closure(x: int) -> int:
+        return x * 100 + k
+
+    return Closure
+
+
+def make_default_task(k):
+    @python.define
+    def WithDefault(x: int) -> int:
+        def inner(y, z=k):
+            return y * 100 + z
+
+        return inner(x)
+
+    return WithDefault
+
+
+# ------------------------------------------------------------------ C09
+
+
+def _file_type():
+    from fileformats.generic import File
+
+    return File
+
+
+@python.define
+def ReadFile(f: _file_type()) -> str:
+    with open(str(f), "rb") as fh:
+        data = fh.read().decode()
+    body("ReadFile", (data,))
+    return data
